@@ -460,7 +460,7 @@ PROPS["C07"] = {
 
 PROPS["C04"] = {
     "kani_units": ["U12", "U23", "U24"],
-    "verus_units": ["iter_reposition"],
+    "verus_units": ["iter_reposition", "iter_merge"],
     "level": "other",
     "technique": "Kani/CBMC contracts on the real btree node operations (array operations complete over ORDER=8; rebalance with child I/O replaced by contracts)",
     "claim": "Node level only: remove_from / shift_from preserve the order and content of the remaining separators and children and keep the node packed; number_separator / last_separator_index / need_rebalance are exact; Node::rebalance (borrow from left, borrow from right, merge; leaf and inner nodes) preserves the in-order sequence of separators and children across parent and siblings, moves exactly one separator through the parent, and releases exactly the merged-away node. Iterator semantics and the whole-tree invariant over histories are not covered.",
@@ -519,6 +519,11 @@ UNIT_META = {
     "iter_reposition": {"functions": ["btree::iter::BTreeIterator::{next_backend,seek_backend,seek_backend_to_last}"],
                         "assumes": ["the `&mut self` receiver is replaced by its fields as parameters (Verus has no `&mut` pattern bindings); rewrites listed in extraction_notes",
                                     "BTree::open under the table lock returns the tree as of the given record; BTreeIterState::{seek,seek_to_last} position the abstract cursor as asked; BTreeIterState::next answers from the cursor (contracts assumed: the node-level walk is not under contract)"]},
+    "iter_merge": {"functions": ["btree::iter::BTreeIterator::iter_inner (merge step: from `let result = match (next_commit_overlay, next_backend)` to the end of the loop body; fragment)"],
+                   "assumes": ["the fragment is wrapped by a hand-written method whose loop stands for iter_inner's loop (a `continue` re-enters it and is reported as 'go round again')",
+                               "Vec<u8>::cmp replaced by a contract returning the three-way outcome of an uninterpreted order (no order property is used)",
+                               "RcValue::value returns the shared bytes; Vec<u8>::clone returns an equal vector (vstd)",
+                               "the candidates handed to the step are the commit overlay's and the backend's next keys beyond the current position (CommitOverlay::btree_next/prev, BTreeIterState::next: assumed)"]},
     "ref_counter": {"functions": ["table::ValueTable::change_ref (fragment)"], "assumes": ["Buf::read_rc models the entry buffer positioned at the counter"]},
     "U1": {
         "functions": ["index::Entry::{new,address_bits,last_address,address,partial_key,extract_key,is_empty,empty,as_u64,from_u64}",
